@@ -91,6 +91,13 @@ func makeArray(t reflect.Type, n int) array {
 	return array{val: reflect.MakeSlice(reflect.SliceOf(t), n, n)}
 }
 
+// growArray returns an array of n elements which starts with the elements of a.
+func growArray(t reflect.Type, a array, n int) array {
+	b := makeArray(t, n)
+	reflect.Copy(b.val, a.val)
+	return b
+}
+
 func (a array) index(i int) value { return value{val: a.val.Index(i)} }
 
 func (a array) length() int { return a.val.Len() }
